@@ -37,8 +37,10 @@
  *     callback: errno is then what bio_btcp_read/bio_btcp_write left (0 or the btcp errno) and is not EAGAIN/EWOULDBLOCK,
  *     because those set the BIO retry flag (jobs btls.bio_btcp_read / btls.bio_btcp_write) and are reported as WANT_*.
  *  A3 SSL_write/SSL_read with num < 0 fail with SSL_R_BAD_LENGTH queued (SSL_ERROR_SSL); with num == 0 they move no byte
- *     and return <= 0; a 0 result that is not caused by a received close_notify is classified SSL_ERROR_SYSCALL with
- *     errno untouched (ssl/ssl_lib.c, SSL_get_error()).
+ *     and return <= 0; a 0 result that is not caused by a received close_notify is classified SSL_ERROR_SYSCALL
+ *     (ssl/ssl_lib.c, SSL_get_error(): nothing queued, nothing wanted) with errno 0 (ssl3_read_internal()/ssl3_write()
+ *     start with clear_sys_error()).  Observed on the OpenSSL 3.0.20 of this image through libxcm: xcm_receive(conn, buf, 0)
+ *     on a healthy btls connection with plaintext pending returns 0 and leaves the connection closed.
  *  A4 SSL_write accepts 1..num bytes or nothing (SSL_MODE_ENABLE_PARTIAL_WRITE); what OpenSSL retains of a refused
  *     write (WANT_WRITE) is NOT modelled (DESIGN section 6, F19).
  *  A5 "The peer's close was seen" (xv_ssl_close_seen, for the last failed call) means: close_notify received
@@ -82,13 +84,18 @@ long xv_peer_cert_calls, xv_verify_result_calls, xv_errstr_calls;   /* SSL_get1_
 long xv_pending_calls; long xv_shutdown_calls; long xv_ssl_free_calls; const SSL *xv_ssl_free_ssl;
 
 #define XV_SSL_CALLS_MAX (1L << 40)
-#define XV_SSL_CNT_OK(c) ((c) >= 0 && (c) < XV_SSL_CALLS_MAX)
-#define XV_SSL_GHOST_RANGE (XV_SSL_CNT_OK(xv_ssl_set_verify_calls) && XV_SSL_CNT_OK(xv_get0_param_calls) && XV_SSL_CNT_OK(xv_x509_set_flags_calls) && \
-                            XV_SSL_CNT_OK(xv_x509_set_hostflags_calls) && XV_SSL_CNT_OK(xv_x509_nhosts) && XV_SSL_CNT_OK(xv_x509_host_resets) && \
-                            XV_SSL_CNT_OK(xv_x509_add_calls) && XV_SSL_CNT_OK(xv_hs_calls) && XV_SSL_CNT_OK(xv_sw_calls) && XV_SSL_CNT_OK(xv_sr_calls) && \
-                            XV_SSL_CNT_OK(xv_x509_refs) && XV_SSL_CNT_OK(xv_pending_calls) && XV_SSL_CNT_OK(xv_shutdown_calls) && \
-                            XV_SSL_CNT_OK(xv_ssl_free_calls) && XV_SSL_CNT_OK(xv_ssl_set_mode_calls) && \
-                            XV_SSL_CNT_OK(xv_peer_cert_calls) && XV_SSL_CNT_OK(xv_verify_result_calls) && XV_SSL_CNT_OK(xv_errstr_calls))
+#define XV_CNT_LIM(c, lim) ((c) >= 0 && (c) < (lim))
+#define XV_SSL_CNT_OK(c) XV_CNT_LIM(c, XV_SSL_CALLS_MAX)
+#define XV_SSL_GHOST_LIM(lim) (XV_CNT_LIM(xv_ssl_set_verify_calls, lim) && XV_CNT_LIM(xv_get0_param_calls, lim) && XV_CNT_LIM(xv_x509_set_flags_calls, lim) && \
+                            XV_CNT_LIM(xv_x509_set_hostflags_calls, lim) && XV_CNT_LIM(xv_x509_nhosts, lim) && XV_CNT_LIM(xv_x509_host_resets, lim) && \
+                            XV_CNT_LIM(xv_x509_add_calls, lim) && XV_CNT_LIM(xv_hs_calls, lim) && XV_CNT_LIM(xv_sw_calls, lim) && XV_CNT_LIM(xv_sr_calls, lim) && \
+                            XV_CNT_LIM(xv_x509_refs, lim) && XV_CNT_LIM(xv_pending_calls, lim) && XV_CNT_LIM(xv_shutdown_calls, lim) && \
+                            XV_CNT_LIM(xv_ssl_free_calls, lim) && XV_CNT_LIM(xv_ssl_set_mode_calls, lim) && \
+                            XV_CNT_LIM(xv_peer_cert_calls, lim) && XV_CNT_LIM(xv_verify_result_calls, lim) && XV_CNT_LIM(xv_errstr_calls, lim))
+/* call counters are < 2^40 on entry of a public operation; helper functions called in mid-operation (and used as contracts
+ * there) accept the slack an operation can add */
+#define XV_SSL_GHOST_RANGE XV_SSL_GHOST_LIM(XV_SSL_CALLS_MAX)
+#define XV_SSL_GHOST_RANGE_IN XV_SSL_GHOST_LIM(4 * XV_SSL_CALLS_MAX)
 
 #define XV_SSL_CONF_ASSIGNS xv_ssl_set_verify_calls, xv_ssl_set_verify_ssl, xv_ssl_set_verify_mode, xv_ssl_set_verify_cb, \
                             xv_get0_param_calls, xv_get0_param_ssl, xv_x509_flags, xv_x509_set_flags_calls
@@ -288,9 +295,10 @@ int SSL_write(SSL *ssl, const void *buf, int num)
     } else {
         r = nondet_bool() ? 0 : -1;
         if (num == 0 && nondet_bool()) {
-            /* nothing to write: 0, no error queued, nothing wanted: SSL_get_error() says SYSCALL, errno untouched (A3) */
+            /* nothing to write: 0, no error queued, nothing wanted: SSL_get_error() says SYSCALL, errno cleared (A3) */
             r = 0;
-            xv_ssl_err = SSL_ERROR_SYSCALL; xv_err_queue = 0; xv_ssl_last_ret = r; xv_ssl_close_seen = 0; xv_ssl_errno = xv_errno;
+            xv_errno = 0; xv_ssl_errno = 0;
+            xv_ssl_err = SSL_ERROR_SYSCALL; xv_err_queue = 0; xv_ssl_last_ret = r; xv_ssl_close_seen = 0;
         } else
             xv_ssl_fail(r, 1);
     }
@@ -321,9 +329,10 @@ int SSL_read(SSL *ssl, void *buf, int num)
         r = nondet_bool() ? 0 : -1;
         if (num == 0 && nondet_bool()) {
             /* ssl3_read_bytes(): `if (len == 0) return 0` once a record is there: 0 bytes "read", no error queued, nothing
-             * wanted: SSL_get_error() says SYSCALL; the BIO may not have been entered: errno untouched (A3) */
+             * wanted: SSL_get_error() says SYSCALL; the BIO may not have been entered: errno is 0 (cleared on entry) (A3) */
             r = 0;
-            xv_ssl_err = SSL_ERROR_SYSCALL; xv_err_queue = 0; xv_ssl_last_ret = r; xv_ssl_close_seen = 0; xv_ssl_errno = xv_errno;
+            xv_errno = 0; xv_ssl_errno = 0;
+            xv_ssl_err = SSL_ERROR_SYSCALL; xv_err_queue = 0; xv_ssl_last_ret = r; xv_ssl_close_seen = 0;
         } else {
             xv_ssl_fail(r, 1);
             if (xv_ssl_close_seen)
@@ -357,5 +366,52 @@ void BIO_set_data(BIO *a, void *ptr) { xv_bio_data = ptr; }
 void BIO_set_flags(BIO *b, int flags) { xv_bio_flags |= flags; }
 void BIO_clear_flags(BIO *b, int flags) { xv_bio_flags &= ~flags; }
 int BIO_test_flags(const BIO *b, int flags) { return xv_bio_flags & flags; }
+
+/* ================================================================================================================ */
+/* object creation                                                                                                   */
+/* ================================================================================================================ */
+static char xv_ssl_obj, xv_bio_obj, xv_ctx_obj;
+#define XV_SSL ((SSL *)&xv_ssl_obj)
+#define XV_BIO ((BIO *)&xv_bio_obj)
+#define XV_CTX ((SSL_CTX *)&xv_ctx_obj)
+long xv_ssl_new_calls; const SSL_CTX *xv_ssl_new_ctx; unsigned long xv_x509_flags0;
+long xv_bio_new_calls, xv_set_bio_calls; const SSL *xv_set_bio_ssl; const BIO *xv_set_bio_r, *xv_set_bio_w;
+#define XV_SSL_NEW_ASSIGNS xv_ssl_new_calls, xv_ssl_new_ctx, xv_x509_flags0, xv_bio_new_calls, xv_set_bio_calls, xv_set_bio_ssl, xv_set_bio_r, xv_set_bio_w, \
+                           xv_ssl_set_mode_calls, xv_ssl_mode, xv_bio_data, xv_bio_flags
+static inline void xv_ssl_new_havoc(void)
+{
+    xv_ssl_new_calls = nondet_long(); xv_ssl_new_ctx = (const SSL_CTX *)nondet_size_t(); xv_x509_flags0 = nondet_size_t();
+    xv_bio_new_calls = nondet_long(); xv_set_bio_calls = nondet_long(); xv_set_bio_ssl = (const SSL *)nondet_size_t();
+    xv_set_bio_r = xv_set_bio_w = (const BIO *)nondet_size_t();
+}
+/* TRUSTED(OpenSSL) SSL_new: NULL, or THE SSL object in its pristine state: no verify mode/callback set on it, verification flags
+ * those of its SSL_CTX (arbitrary: xv_x509_flags0), no expected host names, no handshake done, mode bits of the context */
+SSL *SSL_new(SSL_CTX *ctx)
+{
+    __CPROVER_assert(ctx != NULL, "SSL_new: context given");
+    xv_ssl_new_calls++; xv_ssl_new_ctx = ctx;
+    if (nondet_bool())
+        return NULL;
+    xv_ssl_set_verify_calls = 0; xv_ssl_set_verify_ssl = NULL; xv_ssl_set_verify_mode = nondet_int(); xv_ssl_set_verify_cb = 0;
+    xv_x509_flags0 = nondet_size_t(); xv_x509_flags = xv_x509_flags0; xv_x509_set_flags_calls = 0;
+    xv_x509_hostflags = 0; xv_x509_set_hostflags_calls = 0; xv_x509_nhosts = 0; xv_x509_host_resets = 0; xv_x509_add_calls = 0;
+    xv_hs_calls = 0; xv_ssl_hs_done = 0; xv_sw_calls = 0; xv_sr_calls = 0;
+    xv_ssl_mode = nondet_long(); xv_ssl_set_mode_calls = 0;
+    return XV_SSL;
+}
+/* TRUSTED(OpenSSL) BIO_new: NULL or a new BIO of the given method (bio_btcp_new initialises data NULL, flags 0) */
+BIO *BIO_new(const BIO_METHOD *type)
+{
+    xv_bio_new_calls++;
+    if (nondet_bool())
+        return NULL;
+    xv_bio_data = NULL; xv_bio_flags = 0;
+    return XV_BIO;
+}
+/* TRUSTED(OpenSSL) SSL_set_bio: connects the SSL to its read and write BIO */
+void SSL_set_bio(SSL *s, BIO *rbio, BIO *wbio)
+{
+    xv_set_bio_calls++; xv_set_bio_ssl = s; xv_set_bio_r = rbio; xv_set_bio_w = wbio;
+}
 
 #endif
